@@ -4,6 +4,89 @@ From Coq Require Import NArith ZArith List Bool Lia.
 From HV Require Import Base.Bytes Base.Rlp Base.RlpProofs TxCodec.EthTxModel TxCodec.SignBytesProofs Ante.SigModel.
 Import ListNotations.
 
+(** * histories of any step function with three properties: sequences only
+    grow; an executed message carries a nonce between its account's sequence
+    before and after the event; no two messages of one event share (account,
+    nonce).  Then every (account, nonce) is executed at most once. *)
+Section Once.
+  Context {A E M : Type}.
+  Variable stepE : (A -> N) -> E -> (A -> N) * option (list A).
+  Variable msgsE : E -> list M.
+  Variable nonceM : M -> N.
+  Hypothesis stepE_mono : forall st e b, (st b <= fst (stepE st e) b)%N.
+  Hypothesis stepE_bounds : forall st e l k m a,
+    snd (stepE st e) = Some l -> nth_error (msgsE e) k = Some m -> nth_error l k = Some a ->
+    (st a <= nonceM m < fst (stepE st e) a)%N.
+  Hypothesis stepE_inj : forall st e l k k' m m' a,
+    snd (stepE st e) = Some l -> nth_error (msgsE e) k = Some m -> nth_error (msgsE e) k' = Some m' ->
+    nth_error l k = Some a -> nth_error l k' = Some a -> nonceM m = nonceM m' -> k = k'.
+
+  Notation outcomes := (outcomes_gen stepE).
+  Notation final := (final_gen stepE).
+  Notation executed := (executed_gen stepE msgsE nonceM).
+
+  Lemma final_gen_mono h : forall st b, (st b <= final st h b)%N.
+  Proof.
+    induction h as [|e r IH]; intros st b; cbn [SigModel.final_gen]; [lia|].
+    pose proof (stepE_mono st e b). specialize (IH (fst (stepE st e)) b). lia.
+  Qed.
+
+  Lemma final_gen_app h1 : forall h2 st, final st (h1 ++ h2) = final (final st h1) h2.
+  Proof. induction h1 as [|e r IH]; intros h2 st; cbn [app SigModel.final_gen]; [reflexivity|apply IH]. Qed.
+
+  (** sequences never decrease along a history *)
+  Theorem gen_sequences_monotone h1 h2 st b : (final st h1 b <= final st (h1 ++ h2) b)%N.
+  Proof. rewrite final_gen_app. apply final_gen_mono. Qed.
+
+  Lemma gen_no_exec_below h : forall st j k a n, (n < st a)%N -> ~ executed st h j k a n.
+  Proof.
+    induction h as [|x r IH]; intros st j k a n Hlt (e & l & m & Hh & Ho & Hm & Hl & Hn).
+    - destruct j; discriminate.
+    - destruct j as [|j]; cbn [nth_error SigModel.outcomes_gen] in *.
+      + inversion Hh; subst x. inversion Ho as [Ho'].
+        pose proof (stepE_bounds _ _ _ _ _ _ Ho' Hm Hl). lia.
+      + apply (IH (fst (stepE st x)) j k a n).
+        * pose proof (stepE_mono st x a). lia.
+        * exists e, l, m. auto.
+  Qed.
+
+  Theorem gen_each_nonce_once h : forall st j k j' k' a n,
+    executed st h j k a n -> executed st h j' k' a n -> j = j' /\ k = k'.
+  Proof.
+    induction h as [|x r IH]; intros st j k j' k' a n Hj Hj'.
+    - destruct Hj as (e & l & m & Hh & _). destruct j; discriminate.
+    - assert (Tail : forall i q, executed st (x :: r) (S i) q a n -> executed (fst (stepE st x)) r i q a n).
+      { intros i q (e & l & m & Hh & Ho & Hm & Hl & Hn). exists e, l, m. auto. }
+      assert (Head : forall q, executed st (x :: r) 0 q a n -> (n < fst (stepE st x) a)%N).
+      { intros q (e & l & m & Hh & Ho & Hm & Hl & Hn). cbn in Hh, Ho. inversion Hh; subst x. inversion Ho as [Ho'].
+        pose proof (stepE_bounds _ _ _ _ _ _ Ho' Hm Hl). lia. }
+      destruct j as [|j], j' as [|j'].
+      + split; [reflexivity|].
+        destruct Hj as (e & l & m & Hh & Ho & Hm & Hl & Hn).
+        destruct Hj' as (e' & l' & m' & Hh' & Ho' & Hm' & Hl' & Hn').
+        cbn [nth_error SigModel.outcomes_gen] in Hh, Hh', Ho, Ho'. inversion Hh; subst x. inversion Hh'; subst e'.
+        assert (Hacc : snd (stepE st e) = Some l) by congruence.
+        assert (l' = l) by congruence. subst l'.
+        apply (stepE_inj st e l k k' m m' a Hacc Hm Hm' Hl Hl'). congruence.
+      + exfalso. exact (gen_no_exec_below r _ j' k' a n (Head _ Hj) (Tail _ _ Hj')).
+      + exfalso. exact (gen_no_exec_below r _ j k a n (Head _ Hj') (Tail _ _ Hj)).
+      + destruct (IH _ j k j' k' a n (Tail _ _ Hj) (Tail _ _ Hj')) as [-> ->]. auto.
+  Qed.
+
+  (** an executed message had a nonce not below the account's sequence before
+      the event, and the sequence has passed it afterwards *)
+  Theorem gen_executed_at_current_sequence h : forall st j k a n,
+    executed st h j k a n -> (final st (firstn j h) a <= n < final st (firstn (S j) h) a)%N.
+  Proof.
+    induction h as [|x r IH]; intros st j k a n (e & l & m & Hh & Ho & Hm & Hl & Hn).
+    - destruct j; discriminate.
+    - destruct j as [|j]; cbn [nth_error firstn SigModel.outcomes_gen SigModel.final_gen] in Hh, Ho |- *.
+      + inversion Hh; subst x. inversion Ho as [Ho'].
+        pose proof (stepE_bounds _ _ _ _ _ _ Ho' Hm Hl). lia.
+      + apply (IH (fst (stepE st x)) j k a n). exists e, l, m. auto.
+  Qed.
+End Once.
+
 (** * the generic machine: every (account, nonce) is accepted at most once *)
 Section Machine.
   Context {A T : Type}.
@@ -570,6 +653,212 @@ Section Machine.
     { induction h as [|[ms ok] r IH]; cbn; [reflexivity|]. f_equal. exact IH. }
     rewrite E. auto.
   Qed.
+
+  (** ** contract creations: the execution phase *)
+  Notation new_rule := nonce_after_creation.
+  Notation step_txc := (SigModel.step_txc A_dec auth nonce_of).
+  Notation exec_all := (SigModel.exec_all A_dec).
+
+  Lemma step_tx_inj st ms ok l k k' m m' a :
+    snd (step_tx st (ms, ok)) = Some l -> nth_error ms k = Some m -> nth_error ms k' = Some m' ->
+    nth_error l k = Some a -> nth_error l k' = Some a -> nonce_of m = nonce_of m' -> k = k'.
+  Proof.
+    intros Hacc Hm Hm' Hl Hl' Hn. apply step_tx_accept in Hacc as (_ & _ & _ & Hb).
+    destruct (bump_all_spec _ _ _ Hb) as (_ & _ & Hi).
+    apply (Hi k k' a (nonce_of m)); apply nth_error_combine; (split; [assumption|]); rewrite nth_error_map.
+    - rewrite Hm. reflexivity.
+    - rewrite Hm', Hn. reflexivity.
+  Qed.
+
+  (** when the messages start to execute, the ante handler has moved every
+      sender's sequence past the nonce of every one of its messages *)
+  Lemma accepted_nonces_below st ms ok l :
+    snd (step_tx st (ms, ok)) = Some l ->
+    forall a n, In (a, n) (combine l (map nonce_of ms)) -> (st a <= n < fst (step_tx st (ms, ok)) a)%N.
+  Proof.
+    intros Hacc a n Hin. apply step_tx_accept in Hacc as (_ & _ & _ & Hb).
+    destruct (bump_all_spec _ _ _ Hb) as (_ & Hr & _).
+    destruct (In_nth_error _ _ Hin) as [k Hk]. exact (Hr k a n Hk).
+  Qed.
+
+  (** the rule of the code as it is now never lowers a sequence ... *)
+  Lemma exec_all_mono l : forall st b, (st b <= exec_all new_rule st l b)%N.
+  Proof.
+    induction l as [|[[a m] f] r IH]; intros st b; cbn [SigModel.exec_all]; [lia|].
+    set (st1 := if sets_nonce f then upd A_dec st a (new_rule (st a) m) else st).
+    assert (E1 : (st b <= st1 b)%N).
+    { unfold st1. destruct (sets_nonce f); [|lia]. unfold upd. destruct (A_dec a b) as [<-|]; [|lia].
+      unfold nonce_after_creation. lia. }
+    specialize (IH st1 b). lia.
+  Qed.
+
+  (** ... and is a no-op when every message's nonce is below its sender's sequence *)
+  Lemma exec_all_noop l : forall st, (forall a m f, In (a, m, f) l -> (m < st a)%N) ->
+    forall b, exec_all new_rule st l b = st b.
+  Proof.
+    induction l as [|[[a m] f] r IH]; intros st H b; cbn [SigModel.exec_all]; [reflexivity|].
+    set (st1 := if sets_nonce f then upd A_dec st a (new_rule (st a) m) else st).
+    assert (E1 : forall c, st1 c = st c).
+    { intros c. unfold st1. destruct (sets_nonce f); [|reflexivity]. unfold upd. destruct (A_dec a c) as [<-|]; [|reflexivity].
+      unfold nonce_after_creation. pose proof (H a m f (or_introl eq_refl)). lia. }
+    rewrite IH; [apply E1|]. intros a' m' f' Hin. rewrite E1. apply (H a' m' f'). right. exact Hin.
+  Qed.
+
+  Lemma step_txc_snd rule st msc ok : snd (step_txc rule st (msc, ok)) = snd (step_tx st (map fst msc, ok)).
+  Proof. unfold SigModel.step_txc. destruct (step_tx st (map fst msc, ok)) as [st' [l|]]; reflexivity. Qed.
+
+  (** THE EXECUTION PHASE IS A NO-OP: with the rule max(nonce before, m + 1) a
+      transaction with contract creations leaves exactly the sequences the ante
+      handler left, whatever the flags *)
+  Theorem txc_execution_noop st msc ok :
+    snd (step_txc new_rule st (msc, ok)) = snd (step_tx st (map fst msc, ok)) /\
+    forall b, fst (step_txc new_rule st (msc, ok)) b = fst (step_tx st (map fst msc, ok)) b.
+  Proof.
+    split; [apply step_txc_snd|]. intros b.
+    unfold SigModel.step_txc. destruct (step_tx st (map fst msc, ok)) as [st' [l|]] eqn:E; cbn [fst]; [|reflexivity].
+    apply exec_all_noop. intros a m f Hin. apply in_combine_l in Hin.
+    assert (Hacc : snd (step_tx st (map fst msc, ok)) = Some l) by (rewrite E; reflexivity).
+    pose proof (accepted_nonces_below _ _ _ _ Hacc a m Hin) as H. rewrite E in H. cbn [fst] in H. lia.
+  Qed.
+
+  (** sequence = n + k: after an accepted transaction every account's sequence
+      has grown by the number of its messages, creations or not *)
+  Theorem txc_sequence st msc ok l :
+    snd (step_txc new_rule st (msc, ok)) = Some l ->
+    forall b, fst (step_txc new_rule st (msc, ok)) b = (st b + N.of_nat (occ l b))%N.
+  Proof.
+    intros Hacc b. destruct (txc_execution_noop st msc ok) as [Hs Hf]. rewrite Hs in Hacc.
+    rewrite Hf. exact (step_tx_state _ _ _ _ Hacc b).
+  Qed.
+
+  Lemma step_txc_mono st x b : (st b <= fst (step_txc new_rule st x) b)%N.
+  Proof.
+    destruct x as [msc ok]. destruct (txc_execution_noop st msc ok) as [_ Hf]. rewrite Hf. apply step_tx_mono.
+  Qed.
+
+  Lemma step_txc_bounds st msc ok l k m a :
+    snd (step_txc new_rule st (msc, ok)) = Some l -> nth_error (map fst msc) k = Some m -> nth_error l k = Some a ->
+    (st a <= nonce_of m < fst (step_txc new_rule st (msc, ok)) a)%N.
+  Proof.
+    intros Hacc Hm Hl. destruct (txc_execution_noop st msc ok) as [Hs Hf]. rewrite Hs in Hacc. rewrite Hf.
+    destruct (step_tx_message _ _ _ _ _ _ _ Hacc Hm Hl) as (_ & _ & Hr). exact Hr.
+  Qed.
+
+  Lemma step_txc_inj st msc ok l k k' m m' a :
+    snd (step_txc new_rule st (msc, ok)) = Some l -> nth_error (map fst msc) k = Some m -> nth_error (map fst msc) k' = Some m' ->
+    nth_error l k = Some a -> nth_error l k' = Some a -> nonce_of m = nonce_of m' -> k = k'.
+  Proof. rewrite step_txc_snd. apply step_tx_inj. Qed.
+
+  (** all histories of transactions with contract creations *)
+  Notation msgs_txc := (fun x : list (T * cflag) * bool => map fst (fst x)).
+  Theorem txc_each_nonce_once h st j k j' k' a n :
+    executed_gen (step_txc new_rule) msgs_txc nonce_of st h j k a n ->
+    executed_gen (step_txc new_rule) msgs_txc nonce_of st h j' k' a n -> j = j' /\ k = k'.
+  Proof.
+    apply (gen_each_nonce_once (step_txc new_rule) msgs_txc nonce_of).
+    - intros st0 x b. apply step_txc_mono.
+    - intros st0 [msc ok] l k0 m a0. apply step_txc_bounds.
+    - intros st0 [msc ok] l k0 k0' m m' a0. apply step_txc_inj.
+  Qed.
+
+  Theorem txc_sequences_monotone (h1 h2 : list (list (T * cflag) * bool)) st b :
+    (final_gen (step_txc new_rule) st h1 b <= final_gen (step_txc new_rule) st (h1 ++ h2) b)%N.
+  Proof. apply gen_sequences_monotone. apply step_txc_mono. Qed.
+
+  (** ** events: submissions, transactions with creations, account-type operations *)
+  Context {O : Type}.
+  Notation event := (@event A T W O).
+  Notation step_event := (SigModel.step_event (W:=W) (O:=O) A_dec auth nonce_of new_rule).
+  Notation msgs_of_event := (SigModel.msgs_of_event (A:=A) (T:=T) (W:=W) (O:=O)).
+  Notation final_event := (SigModel.final_event (W:=W) (O:=O) A_dec auth nonce_of new_rule).
+  Notation outcomes_event := (SigModel.outcomes_event (W:=W) (O:=O) A_dec auth nonce_of new_rule).
+  Notation executed_event := (SigModel.executed_event (W:=W) (O:=O) A_dec auth nonce_of new_rule).
+
+  Lemma step_event_mono st (e : event) b : (st b <= fst (step_event st e) b)%N.
+  Proof.
+    destruct e as [x|msc ok|o tgt sg ok]; cbn [SigModel.step_event].
+    - rewrite step_any_erase. apply step_tx_mono.
+    - apply step_txc_mono.
+    - apply step_tx_mono.
+  Qed.
+
+  Lemma step_event_bounds st (e : event) l k m a :
+    snd (step_event st e) = Some l -> nth_error (msgs_of_event e) k = Some m -> nth_error l k = Some a ->
+    (st a <= nonce_of m < fst (step_event st e) a)%N.
+  Proof.
+    destruct e as [[ms ok|w c ok]|msc ok|o tgt sg ok]; cbn [SigModel.step_event SigModel.step_any SigModel.msgs_of_event SigModel.msgs_of].
+    - intros Hacc Hm Hl. destruct (step_tx_message _ _ _ _ _ _ _ Hacc Hm Hl) as (_ & _ & Hr). exact Hr.
+    - discriminate.
+    - apply step_txc_bounds.
+    - intros Hacc Hm Hl. destruct (step_tx_message _ _ _ _ _ _ _ Hacc Hm Hl) as (_ & _ & Hr). exact Hr.
+  Qed.
+
+  Lemma step_event_inj st (e : event) l k k' m m' a :
+    snd (step_event st e) = Some l -> nth_error (msgs_of_event e) k = Some m -> nth_error (msgs_of_event e) k' = Some m' ->
+    nth_error l k = Some a -> nth_error l k' = Some a -> nonce_of m = nonce_of m' -> k = k'.
+  Proof.
+    destruct e as [[ms ok|w c ok]|msc ok|o tgt sg ok]; cbn [SigModel.step_event SigModel.step_any SigModel.msgs_of_event SigModel.msgs_of].
+    - apply step_tx_inj.
+    - discriminate.
+    - apply step_txc_inj.
+    - apply step_tx_inj.
+  Qed.
+
+  (** at most once, over ALL histories of events *)
+  Theorem event_each_nonce_once h st j k j' k' a n :
+    executed_event st h j k a n -> executed_event st h j' k' a n -> j = j' /\ k = k'.
+  Proof.
+    exact (gen_each_nonce_once step_event msgs_of_event nonce_of step_event_mono step_event_bounds step_event_inj
+                               h st j k j' k' a n).
+  Qed.
+
+  (** sequences never decrease, over ALL histories of events *)
+  Theorem event_sequences_monotone h1 h2 st b : (final_event st h1 b <= final_event st (h1 ++ h2) b)%N.
+  Proof. exact (gen_sequences_monotone step_event step_event_mono h1 h2 st b). Qed.
+
+  Theorem event_executed_at_current_sequence h st j k a n :
+    executed_event st h j k a n -> (final_event st (firstn j h) a <= n < final_event st (firstn (S j) h) a)%N.
+  Proof. exact (gen_executed_at_current_sequence step_event msgs_of_event nonce_of step_event_bounds h st j k a n). Qed.
+
+  (** consequently a message executed once is never executed again, whatever
+      events -- wrapped submissions, creations, account-type operations -- lie
+      between: its nonce stays below the account's sequence for ever *)
+  Theorem event_replay_rejected h st j k a n j' k' :
+    executed_event st h j k a n -> (j < j')%nat -> ~ executed_event st h j' k' a n.
+  Proof.
+    intros H Hlt H'. destruct (event_each_nonce_once h st j k j' k' a n H H') as [-> _]. lia.
+  Qed.
+
+  (** an account-type operation is its signers' transaction and nothing else *)
+  Theorem account_op_step st (o : O) tgt sg ok :
+    step_event st (EAccountOp o tgt sg ok) = step_tx st (sg, ok).
+  Proof. reflexivity. Qed.
+
+  (** ... in particular the sequence of its target does not move (unless the
+      target itself is among the signers of the operation) *)
+  Theorem account_op_target_untouched st (o : O) tgt sg ok :
+    (forall m, In m sg -> auth st m <> Some tgt) ->
+    fst (step_event st (EAccountOp o tgt sg ok)) tgt = st tgt.
+  Proof.
+    intros Hno. cbn [SigModel.step_event].
+    destruct (snd (step_tx st (sg, ok))) as [l|] eqn:E; [|rewrite (step_tx_reject _ _ E); reflexivity].
+    rewrite (step_tx_state _ _ _ _ E).
+    assert (Hnot : ~ In tgt l).
+    { intros Hin. destruct (In_nth_error _ _ Hin) as [k Hk].
+      pose proof (step_tx_accept _ _ _ _ E) as (_ & _ & Hau & _).
+      destruct (auth_all_nth _ _ _ Hau) as [Hlen Hn].
+      assert (Hk' : (k < length sg)%nat). { rewrite <- Hlen. apply nth_error_Some. congruence. }
+      destruct (nth_error sg k) as [m|] eqn:Em; [|apply nth_error_None in Em; lia].
+      destruct (Hn k m Em) as (a' & Ha' & Hauth). rewrite Hk in Ha'. inversion Ha'; subst a'.
+      exact (Hno m (nth_error_In _ _ Em) Hauth). }
+    rewrite (count_occ_not_In A_dec) in Hnot. rewrite Hnot. cbn. lia.
+  Qed.
+
+  (** a transaction with creations, as an event: sequence = n + k *)
+  Theorem creating_sequence st msc ok l :
+    snd (step_event st (ECreating msc ok)) = Some l ->
+    forall b, fst (step_event st (ECreating msc ok)) b = (st b + N.of_nat (occ l b))%N.
+  Proof. apply txc_sequence. Qed.
 End Machine.
 
 (** * the Ethereum route *)
@@ -749,6 +1038,61 @@ Section EthRoute.
       final_any st (map (fun x => Direct (fst x) (snd x)) h) = final_eth_tx hash recover cfg st h.
     Proof. apply any_direct_only. Qed.
   End Wrapped.
+
+  (** ** transactions with contract creations; events *)
+  Section Creations.
+    Notation new_rule := nonce_after_creation.
+    Notation step_txc := (step_eth_txc hash recover cfg new_rule).
+
+    Theorem eth_txc_execution_noop st msc ok :
+      snd (step_txc st (msc, ok)) = snd (step_tx st (map fst msc, ok)) /\
+      forall b, fst (step_txc st (msc, ok)) b = fst (step_tx st (map fst msc, ok)) b.
+    Proof. apply txc_execution_noop. Qed.
+
+    Theorem eth_txc_sequence st msc ok l :
+      snd (step_txc st (msc, ok)) = Some l ->
+      forall b, fst (step_txc st (msc, ok)) b = (st b + N.of_nat (occ l b))%N.
+    Proof. apply txc_sequence. Qed.
+
+    Theorem eth_txc_each_nonce_once h st j k j' k' a n :
+      executed_eth_txc hash recover cfg new_rule st h j k a n ->
+      executed_eth_txc hash recover cfg new_rule st h j' k' a n -> j = j' /\ k = k'.
+    Proof. apply txc_each_nonce_once. Qed.
+
+    Theorem eth_txc_sequences_monotone (h1 h2 : list (list (eth_tx * cflag) * bool)) st b :
+      (final_eth_txc hash recover cfg new_rule st h1 b <= final_eth_txc hash recover cfg new_rule st (h1 ++ h2) b)%N.
+    Proof. apply txc_sequences_monotone. Qed.
+
+    Context {W O : Type}.
+    Notation step_event := (step_eth_event (W:=W) (O:=O) hash recover cfg new_rule).
+    Notation final_event := (final_eth_event (W:=W) (O:=O) hash recover cfg new_rule).
+    Notation executed_event := (executed_eth_event (W:=W) (O:=O) hash recover cfg new_rule).
+
+    Theorem eth_event_each_nonce_once h st j k j' k' a n :
+      executed_event st h j k a n -> executed_event st h j' k' a n -> j = j' /\ k = k'.
+    Proof. apply event_each_nonce_once. Qed.
+
+    Theorem eth_event_replay_rejected h st j k a n j' k' :
+      executed_event st h j k a n -> (j < j')%nat -> ~ executed_event st h j' k' a n.
+    Proof. apply event_replay_rejected. Qed.
+
+    Theorem eth_event_sequences_monotone h1 h2 st b : (final_event st h1 b <= final_event st (h1 ++ h2) b)%N.
+    Proof. apply event_sequences_monotone. Qed.
+
+    Theorem eth_event_executed_at_current_sequence h st j k a n :
+      executed_event st h j k a n -> (final_event st (firstn j h) a <= n < final_event st (firstn (S j) h) a)%N.
+    Proof. apply event_executed_at_current_sequence. Qed.
+
+    Theorem eth_account_op_target_untouched st (o : O) tgt sg ok :
+      (forall m, In m sg -> auth st m <> Some tgt) ->
+      fst (step_event st (EAccountOp o tgt sg ok)) tgt = st tgt.
+    Proof. apply account_op_target_untouched. Qed.
+
+    Theorem eth_creating_sequence st msc ok l :
+      snd (step_event st (ECreating msc ok)) = Some l ->
+      forall b, fst (step_event st (ECreating msc ok)) b = (st b + N.of_nat (occ l b))%N.
+    Proof. apply creating_sequence. Qed.
+  End Creations.
 
   (** the signature that authenticates: the recovery call that succeeded *)
   Lemma sender_some cid tx a : sender hash recover cid tx = Some a ->
@@ -1088,6 +1432,20 @@ Proof. reflexivity. Qed.
 Theorem sub_any_direct nd st ms ok : step_sub_any nd st (Direct ms ok) = step_sub_tx nd st (ms, ok).
 Proof. reflexivity. Qed.
 
+(** ... and with creations and account-type operations *)
+Theorem sub_event_each_nonce_once nd (h : list (@event N sub wrap account_op)) st j k j' k' a n :
+  executed_event N.eq_dec (auth_sub nd) sub_nonce nonce_after_creation st h j k a n ->
+  executed_event N.eq_dec (auth_sub nd) sub_nonce nonce_after_creation st h j' k' a n -> j = j' /\ k = k'.
+Proof. apply event_each_nonce_once. Qed.
+
+Theorem sub_event_sequences_monotone nd (h1 h2 : list (@event N sub wrap account_op)) st b :
+  (final_event N.eq_dec (auth_sub nd) sub_nonce nonce_after_creation st h1 b
+   <= final_event N.eq_dec (auth_sub nd) sub_nonce nonce_after_creation st (h1 ++ h2) b)%N.
+Proof. apply event_sequences_monotone. Qed.
+
+Theorem sub_event_sub nd st x : step_sub_event nd st (ESub x) = step_sub_any nd st x.
+Proof. reflexivity. Qed.
+
 (** on one-unit transactions [step_sub_tx] is [step_sub] *)
 Theorem sub_tx_singleton nd st s ok :
   step_sub_tx nd st ([s], ok) = (fst (step_sub nd st (s, ok)), option_map (fun a => [a]) (snd (step_sub nd st (s, ok)))).
@@ -1228,6 +1586,89 @@ Section Examples.
     - apply (eth_wrapped_never_executes toy_hash toy_recover ex_cfg ex_wrapped_history ex_state 1 (ex_w 1 1) [ex_tx 42 5 1] true).
       reflexivity.
     - exists (Direct [ex_tx 42 6 2] true), [A42], (ex_tx 42 6 2). vm_compute. repeat split; reflexivity.
+  Qed.
+
+  (** ** contract creations.  Key 42 (sequence 5) signs a creation with nonce 5
+      and a call with nonce 6; they travel in one Cosmos transaction, then the
+      call is delivered again alone.  With the rule of the code as it is now the
+      replay is rejected and the sequence ends at 7 = 5 + 2; with the rule of
+      the code before commit f9ff121 (nonce := 6 after the creation, although
+      the ante handler had stored 7) the call executes a SECOND time. *)
+  Definition ex_create (k : Z) (nonce : N) : eth_tx :=
+    sign_tx toy_hash toy_sign k 11235 (TxDynamicFee (mk_df 11235 nonce 1 100 100000 None 0 [0%N] [] 0 0 0)).
+  Definition created : cflag := mk_cflag true true.
+  Definition ex_create_history : list (list (eth_tx * cflag) * bool) :=
+    [ ([(ex_create 42 5, created); (ex_tx 42 6 2, no_creation)], true);
+      ([(ex_tx 42 6 2, no_creation)], true) ].
+
+  Example ex_create_new_rule :
+    outcomes_eth_txc toy_hash toy_recover ex_cfg nonce_after_creation ex_state ex_create_history = [Some [A42; A42]; None] /\
+    seq_of (final_eth_txc toy_hash toy_recover ex_cfg nonce_after_creation ex_state ex_create_history) = (7%N, 0%N) /\
+    executed_eth_txc toy_hash toy_recover ex_cfg nonce_after_creation ex_state ex_create_history 0 1 A42 6%N.
+  Proof.
+    split; [vm_compute; reflexivity|]. split; [vm_compute; reflexivity|].
+    exists ([(ex_create 42 5, created); (ex_tx 42 6 2, no_creation)], true), [A42; A42], (ex_tx 42 6 2).
+    vm_compute. repeat split; reflexivity.
+  Qed.
+
+  Example ex_create_old_rule :
+    outcomes_eth_txc toy_hash toy_recover ex_cfg nonce_after_creation_old ex_state ex_create_history = [Some [A42; A42]; Some [A42]] /\
+    seq_of (final_eth_txc toy_hash toy_recover ex_cfg nonce_after_creation_old ex_state (firstn 1 ex_create_history)) = (6%N, 0%N) /\
+    executed_eth_txc toy_hash toy_recover ex_cfg nonce_after_creation_old ex_state ex_create_history 0 1 A42 6%N /\
+    executed_eth_txc toy_hash toy_recover ex_cfg nonce_after_creation_old ex_state ex_create_history 1 0 A42 6%N.
+  Proof.
+    split; [vm_compute; reflexivity|]. split; [vm_compute; reflexivity|]. split.
+    - exists ([(ex_create 42 5, created); (ex_tx 42 6 2, no_creation)], true), [A42; A42], (ex_tx 42 6 2).
+      vm_compute. repeat split; reflexivity.
+    - exists ([(ex_tx 42 6 2, no_creation)], true), [A42], (ex_tx 42 6 2).
+      vm_compute. repeat split; reflexivity.
+  Qed.
+
+  (** the at-most-once statement is FALSE for the old rule *)
+  Theorem old_creation_rule_refuted :
+    ~ (forall (h : list (list (eth_tx * cflag) * bool)) (st : bytes -> N) j k j' k' a n,
+         executed_eth_txc toy_hash toy_recover ex_cfg nonce_after_creation_old st h j k a n ->
+         executed_eth_txc toy_hash toy_recover ex_cfg nonce_after_creation_old st h j' k' a n -> j = j' /\ k = k').
+  Proof.
+    intros H. destruct ex_create_old_rule as (_ & _ & H1 & H2).
+    destruct (H _ _ _ _ _ _ _ _ H1 H2) as [E _]. discriminate.
+  Qed.
+
+  (** and so is "sequence = n + k": two messages accepted from sequence 5, the
+      account ends at 6 *)
+  Theorem old_creation_rule_sequence_refuted :
+    ~ (forall st msc ok l, snd (step_eth_txc toy_hash toy_recover ex_cfg nonce_after_creation_old st (msc, ok)) = Some l ->
+         forall b, fst (step_eth_txc toy_hash toy_recover ex_cfg nonce_after_creation_old st (msc, ok)) b
+                   = (st b + N.of_nat (count_occ (list_eq_dec N.eq_dec) l b))%N).
+  Proof.
+    intros H.
+    specialize (H ex_state [(ex_create 42 5, created); (ex_tx 42 6 2, no_creation)] true [A42; A42] eq_refl A42).
+    vm_compute in H. discriminate.
+  Qed.
+
+  (** events: a creation batch, an account-type operation against key 42 signed
+      by key 43, the replay of the call, a wrapped replay, the next nonce *)
+  Definition ex_event_history : list (@event bytes eth_tx wrap account_op) :=
+    [ ECreating [(ex_create 42 5, created); (ex_tx 42 6 2, no_creation)] true;
+      EAccountOp OpConvertIntoVesting A42 [ex_tx 43 0 1] true;
+      ESub (Direct [ex_tx 42 6 2] true);
+      ECreating [(ex_create 42 5, created)] true;
+      ESub (Wrapped (ex_w 1 1) [ex_tx 42 6 2] true);
+      EAccountOp OpConvertBack A42 [ex_tx 43 1 1] true;
+      ECreating [(ex_tx 42 7 3, no_creation); (ex_create 42 8, mk_cflag true false)] true;
+      ESub (Direct [ex_tx 42 8 9] true) ].
+
+  Example ex_event_outcomes :
+    outcomes_eth_event toy_hash toy_recover ex_cfg nonce_after_creation ex_state ex_event_history
+    = [Some [A42; A42]; Some [A43]; None; None; None; Some [A43]; Some [A42; A42]; None] /\
+    map (fun i => seq_of (final_eth_event toy_hash toy_recover ex_cfg nonce_after_creation ex_state (firstn i ex_event_history)))
+        [0; 1; 2; 6; 7; 8]%nat
+    = [(5%N, 0%N); (7%N, 0%N); (7%N, 1%N); (7%N, 2%N); (9%N, 2%N); (9%N, 2%N)] /\
+    executed_eth_event toy_hash toy_recover ex_cfg nonce_after_creation ex_state ex_event_history 0 1 A42 6%N.
+  Proof.
+    split; [vm_compute; reflexivity|]. split; [vm_compute; reflexivity|].
+    exists (ECreating [(ex_create 42 5, created); (ex_tx 42 6 2, no_creation)] true), [A42; A42], (ex_tx 42 6 2).
+    vm_compute. repeat split; reflexivity.
   Qed.
 
   (** a pre-EIP-155 signature is refused while AllowUnprotectedTxs is false *)
